@@ -22,6 +22,7 @@ type specEnv struct {
 	results []SV
 	resNames []string
 	parent  *specEnv
+	calleeFn *ssa.Function // set when a callee's contract is evaluated at a call site
 }
 
 func newSpecEnv(pkg string) *specEnv { return &specEnv{names: map[string]SV{}, pkg: pkg} }
@@ -69,6 +70,7 @@ func (e *specEnv) setResults(res Val) {
 // calleeEnv binds contract parameter names to argument values.
 func (fc *FnCtx) calleeEnv(spec *FuncSpec, callee *ssa.Function, sig *types.Signature, args []Val) *specEnv {
 	env := newSpecEnv(spec.Pkg)
+	env.calleeFn = callee
 	var ptypes []types.Type
 	var pnames []string
 	if callee != nil {
@@ -391,6 +393,11 @@ func (ev *evaluator) ident(name string) SV {
 	}
 	if sv, ok := ev.localByName(name); ok {
 		return sv
+	}
+	if ev.env.calleeFn == nil {
+		if t, ok := ev.fc.ghostNames[name]; ok {
+			return SV{t, nil}
+		}
 	}
 	switch name {
 	case "true":
@@ -789,7 +796,7 @@ func (ev *evaluator) evalCall(x *ECall) SV {
 		if rt, ok := recv.V.(Term); ok && rt.Sort == SBytes && sel.Sel == "String" {
 			return SV{app(SStr, "hexStr", rt), types.Typ[types.String]}
 		}
-		ev.fail("unsupported method call .%s()", sel.Sel)
+		ev.fail("unsupported method call %s.%s() on %T %v", describeExpr(sel.X), sel.Sel, recv.V, recv.V)
 	}
 	id, ok := x.Fun.(*EIdent)
 	if !ok {
@@ -893,6 +900,43 @@ func (ev *evaluator) evalCall(x *ECall) SV {
 			return SV{slArr(t), nil}
 		}
 		return SV{slOff(t), nil}
+	case "cur":
+		// cur(x): the current value of the local variable (or reassigned parameter) x of the function
+		// under verification, e.g. in a postcondition
+		id2, ok := x.Args[0].(*EIdent)
+		if !ok {
+			ev.fail("cur() takes a local variable name")
+		}
+		if cf := ev.env.calleeFn; cf != nil {
+			// evaluating a callee's contract at a call site: its locals are unknown to the caller
+			if sv, ok := ev.env.names["cur:"+id2.Name]; ok {
+				return sv
+			}
+			var lt types.Type
+			if o := cf.Origin(); o != nil {
+				cf = o
+			}
+			for _, l := range cf.Locals {
+				if l.Comment == id2.Name {
+					lt = l.Type().(*types.Pointer).Elem()
+					break
+				}
+			}
+			if lt == nil {
+				ev.fail("cur(%s): callee %s has no such local", id2.Name, cf.Name())
+			}
+			sv := SV{ev.fc.havocValue(ev.st, "cur_"+id2.Name, lt), lt}
+			ev.env.names["cur:"+id2.Name] = sv
+			return sv
+		}
+		saved := ev.env
+		ev.env = &specEnv{names: map[string]SV{}, fr: ev.fc.topFrame, pkg: saved.pkg}
+		sv, found := ev.localByName(id2.Name)
+		ev.env = saved
+		if !found {
+			ev.fail("cur(%s): no such local", id2.Name)
+		}
+		return sv
 	case "unchanged":
 		// unchanged("Struct.field") / unchanged("elems(Hdr)"): the heap agrees with its entry value on
 		// every reference that existed at entry
